@@ -1636,19 +1636,19 @@ package stackage
 //@ loop 1 invariant i == 1 && isPrimV(e0) ==> is
 
 //@ func (condition).string @spec
-//@ tags C02
+//@ tags C02,C06
 //@ safety C02
 //@ requires rdom() && r.cfg != nil && okref(r.cfg, alloc) && F_nodeConfig_typ[r.cfg] == 0x05 && okelem(r.ex) && r.op != nil && isOperator(r.op)
 //@ hint[raw] raw == EX(r.ex)
 //@ hint[val] val == encapS(F_nodeConfig_enc[r.cfg], EX(r.ex))
-//@ ensures[C02:cond.text] result == crT(r.kw, r.op, r.ex, r.cfg)
+//@ ensures[C02,C06:cond.text] result == crT(r.kw, r.op, r.ex, r.cfg)
 //@ modifies Mem_Str[fresh], Cell_strings_Builder[fresh], G_calls_len, G_calls_fn, G_calls_arg
 
 //@ func (Condition).String @spec
-//@ tags C02
+//@ tags C02,C06
 //@ safety C02
 //@ requires rdom() && (r == nil || cwf(r))
-//@ ensures[C02:Cond.String] s == CRv(r)
+//@ ensures[C02,C06:Cond.String] s == CRv(r)
 //@ modifies Mem_Str[fresh], Cell_strings_Builder[fresh], G_calls_len, G_calls_fn, G_calls_arg
 
 //@ func (stack).defaultAssertionHandler @spec
